@@ -5,7 +5,10 @@
     state of a name is what the operator commanded); the view follows the pause
     CONTROLLERS.  The two agree when, over the whole trace, the gate-set events of
     the commands for the name are exactly the gate-set events on the controller
-    the request read, each reporting the commanded state ([one_ctl]).
+    the request read, each reporting the commanded state ([one_ctl]).  "Timed out
+    although a resume / stop had come earlier" compares the TIMES of events, so the
+    side condition also asks that time does not run backwards along the trace
+    ([time_mono]; true of every recorded trace).
 
     Statements: props/C07link.v. *)
 From KP Require Import model.Base model.Trace model.M5gate model.M5path corr.C07corr.
@@ -82,10 +85,22 @@ Definition side_req (t : itrace) (r : nat) : bool :=
   | [] => true
   end.
 
-Definition c07_side (tr : trace) (r : nat) : bool :=
-  params_agree (slim tr) && side_req (slim tr) r.
+(** virtual time never runs backwards along the trace (the events are recorded in the order in which
+    they happen) *)
+Fixpoint mono_from (t0 : N) (l : trace) : bool :=
+  match l with
+  | [] => true
+  | e :: r => (t0 <=? e_t e) && mono_from (e_t e) r
+  end.
 
-(** the 503 / 504 of a request that the gate did not let proceed names no target *)
+Definition time_mono (t : itrace) : bool := mono_from 0 (map snd t).
+
+Definition c07_side (tr : trace) (r : nat) : bool :=
+  params_agree (slim tr) && time_mono (slim tr) && side_req (slim tr) r.
+
+(** the 503 / 504 of a request that the gate did not let proceed names no target (since the gate view
+    demands it of every accepted trace, this is no longer a hypothesis of any theorem; kept to show that the
+    old witness trace is now rejected) *)
 Definition plain_answer (t : itrace) (r : nat) : bool :=
   let l := req_evs t r in
   proceeded l ||
@@ -165,7 +180,7 @@ Definition DoneP r (hist : trace) (pc : nat) (st : gstate) (a : gaction) : Prop 
 
 Definition AnsP r (hist : trace) (a : gaction) (status : N) : Prop :=
   exists p5 hb t who sb pc st, hist = p5 ++ mkEv t who (KRespond r status sb) :: hb /\
-                               quiet r p5 /\ DoneP r hb pc st a /\ status_ok a status.
+                               quiet r p5 /\ DoneP r hb pc st a /\ status_ok a status sb.
 
 Definition Direct r (hist : trace) (status : N) : Prop :=
   exists p5 hb t who sb, hist = p5 ++ mkEv t who (KRespond r status sb) :: hb /\ quiet r p5 /\ quiet r hb.
@@ -203,7 +218,7 @@ Proof.
   destruct (concerns_dec r e) as [Hreq|Hn].
   2:{ rewrite (gstep_req_other _ _ _ _ Hstep Hn). now apply ReqInv2_cons_other. }
   unfold M5gateFacts.concerns in Hreq.
-  specialize (Hall r). specialize (Hall1 r). destruct Hc as [H1 H2 H3 H4].
+  specialize (Hall r). specialize (Hall1 r). destruct Hc as [H1 H2 H3 H4 H5].
   destruct e as [t who k]. unfold req_of in Hreq. unfold gstep in Hstep. cbn [e_k e_by e_t] in *.
   destruct k; try discriminate.
   - (* respond *)
@@ -215,7 +230,8 @@ Proof.
     + destruct (match a with AStopped => _ | ATimedOut => _ | AProceed => _ end) eqn:Est; [|discriminate].
       injection Hstep as <-. rewrite get_set_req. cbn [ReqInv2]. destruct Hall as (st & HD).
       exists [], h, t, who, served_by, pc, st. split; [reflexivity|]. split; [constructor|]. split; [exact HD|].
-      unfold status_ok. destruct a; auto; now apply N.eqb_eq in Est.
+      unfold status_ok. destruct a; auto; apply andb_true_iff in Est as [Est Esb];
+        apply N.eqb_eq in Est; apply str_eqb_nil in Esb; auto.
     + injection Hstep as <-. rewrite get_set_req. cbn [ReqInv2].
       exists [], h, t, who, served_by. split; [reflexivity|]. split; [constructor|exact Hall1].
   - (* pick *)
@@ -348,8 +364,8 @@ Inductive set_shape (s s' : gst) (pc : nat) : Prop :=
                    st <> GPaused -> g_ctl s' = nset (g_ctl s) pc (mkCtl st (Some g) fa) -> g_opened s' = g_opened s ->
                    g_closed s' = (g, st) :: g_closed s -> set_shape s s' pc.
 
-Lemma step_setstate_shape s pc st ch s' :
-  st <> GPaused -> step_setstate s pc st ch = Some s' -> set_shape s s' pc.
+Lemma step_setstate_shape s t pc st ch s' :
+  st <> GPaused -> step_setstate s t pc st ch = Some s' -> set_shape s s' pc.
 Proof.
   intros Hne. unfold step_setstate.
   destruct (onat_eqb ch (c_chan (ctl_of s pc))) eqn:Ech; [|discriminate]. apply onat_eqb_eq in Ech.
@@ -368,7 +384,7 @@ Proof.
   assert (Hopen : match ch with
                   | Some g => if nmem g (g_opened s) then None
                               else Some (mkG (g_cmds s) (nset (g_ctl s) pc (mkCtl GPaused (Some g) fa)) (g :: g_opened s)
-                                             (g_closed s) (g_req s) (g_known s) (g_parent s) (g_pc s))
+                                             (g_closed s) (g_ctime s) (g_req s) (g_known s) (g_parent s) (g_pc s))
                   | None => None
                   end = Some s' -> set_shape s s' pc).
   { destruct ch as [g|]; [|discriminate]. destruct (nmem g (g_opened s)) eqn:Em; [discriminate|].
@@ -382,7 +398,7 @@ Proof.
   - intros _. exact Est.
 Qed.
 
-Lemma step_set_shape s who pc st ch s' : step_set s who pc st ch = Some s' -> set_shape s s' pc.
+Lemma step_set_shape s t who pc st ch s' : step_set s t who pc st ch = Some s' -> set_shape s s' pc.
 Proof.
   unfold step_set. destruct st.
   - apply step_setstate_shape. discriminate.
@@ -623,7 +639,7 @@ Proof.
       split; [now rewrite S1|]. rewrite S3. destruct st; try reflexivity.
       rewrite Eby. unfold gstep in Hs. rewrite Hk in Hs. cbn [step_set] in Hs. unfold step_pause in Hs. rewrite Eby in Hs.
       destruct (nget (g_cmds s0) c) as [fa|] eqn:Ec; [|discriminate].
-      destruct (GInv_run _ _ R0) as [[H1 _ _ _] _]. rewrite H1 in Ec. fold hh in Ec. rewrite Ec.
+      destruct (GInv_run _ _ R0) as [[H1 _ _ _ _] _]. rewrite H1 in Ec. fold hh in Ec. rewrite Ec.
       destruct (fail_of_in _ _ _ Ec) as (e' & a & b & Hin' & Hk').
       unfold hh in Hin'. rewrite <- in_rev in Hin'. apply in_map_snd in Hin' as (i' & Hin').
       eapply params_agree_in; [exact Hpar| |exact Hk']. rewrite Ht, in_app_iff. left. exact Hin'.
@@ -674,6 +690,109 @@ Proof.
       unfold gstep in Hs. rewrite Hk in Hs. cbn [step_set] in Hs.
       destruct (step_pause_paused _ _ _ _ _ _ Hs Est Ech) as [Est1 Ech1].
       eapply IH; eassumption.
+Qed.
+
+(** time never runs backwards *)
+Lemma mono_from_le t0 l : mono_from t0 l = true -> forall e, In e l -> t0 <= e_t e.
+Proof.
+  revert t0. induction l as [|x l IH]; intros t0 H e Hin; cbn [mono_from] in H; [destruct Hin|].
+  apply andb_true_iff in H as [H1 H2]. apply N.leb_le in H1. destruct Hin as [<-|Hin]; [exact H1|].
+  specialize (IH _ H2 e Hin). lia.
+Qed.
+
+Lemma mono_from_app t0 a b : mono_from t0 (a ++ b) = true -> exists t1, mono_from t1 b = true.
+Proof.
+  revert t0. induction a as [|x a IH]; intros t0 H; cbn [app mono_from] in H; [eauto|].
+  apply andb_true_iff in H as [_ H]. eapply IH. exact H.
+Qed.
+
+Lemma mono_from_app_l t0 a b : mono_from t0 (a ++ b) = true -> mono_from t0 a = true.
+Proof.
+  revert t0. induction a as [|x a IH]; intros t0 H; cbn [app mono_from] in *; [reflexivity|].
+  apply andb_true_iff in H as [H1 H2]. rewrite H1. cbn [andb]. eapply IH. exact H2.
+Qed.
+
+Lemma nsf_time t n ie x : In x (nsf t n ie) -> ne_t x = e_t (snd ie).
+Proof.
+  destruct ie as [i e]. destruct (e_k e) eqn:Hk;
+    try (rewrite nsf_nonset; [intros []|cbn [snd]; intros; rewrite Hk; discriminate]).
+  destruct (nsf_set t n i e _ _ _ Hk) as [E|(c & cs & _ & E)]; rewrite E; [intros []|].
+  intros [<-|[]]. reflexivity.
+Qed.
+
+Lemma ns_time t n l x : In x (flat_map (nsf t n) l) -> exists ie, In ie l /\ ne_t x = e_t (snd ie).
+Proof.
+  rewrite in_flat_map. intros (ie & Hin & Hx). exists ie. split; [exact Hin|]. eapply nsf_time. exact Hx.
+Qed.
+
+Lemma close_time_app h2 h1 g tc : close_time h1 g = Some tc -> close_time (h2 ++ h1) g = Some tc.
+Proof. intros H. induction h2 as [|e h2 IH]; cbn [app close_time]; [exact H|]. now rewrite IH. Qed.
+
+(** from a controller paused on generation [g]: the first command that makes the name leave the paused
+    state closes [g]; when time does not run backwards every later "leave" of the name comes at or after the
+    time recorded for that close *)
+Lemma closed_before t n pc g :
+  one_ctl t n pc = true ->
+  forall t2 t1 s s', (forall x, In x t2 -> In x t) ->
+  run gstep ginit (map snd t1) = Some s -> run gstep s (map snd t2) = Some s' ->
+  c_state (ctl_of s pc) = GPaused -> c_chan (ctl_of s pc) = Some g ->
+  forall t0, mono_from t0 (map snd t2) = true ->
+  forall x, In x (leaves (flat_map (nsf t n) t2) GPaused) ->
+  exists tc, close_time (rev (map snd (t1 ++ t2))) g = Some tc /\ tc <= ne_t x.
+Proof.
+  intros Hone t2. induction t2 as [|[i e] t2 IH]; intros t1 s s' Hsub R1 Hrun Est Ech t0 Hmono x Hx.
+  - destruct Hx.
+  - cbn [map snd run] in Hrun. destruct (gstep s e) as [s1|] eqn:Hs; [|discriminate].
+    cbn [map snd mono_from] in Hmono. apply andb_true_iff in Hmono as [_ Hmono].
+    cbn [flat_map] in Hx.
+    assert (Hsub' : forall y, In y t2 -> In y t) by (intros y Hy; apply Hsub; now right).
+    assert (Hin : In (i, e) t) by (apply Hsub; now left).
+    assert (R1' : run gstep ginit (map snd (t1 ++ [(i, e)])) = Some s1).
+    { rewrite map_app, run_app, R1. cbn [map snd run]. now rewrite Hs. }
+    assert (Eapp : t1 ++ (i, e) :: t2 = (t1 ++ [(i, e)]) ++ t2) by (now rewrite <- app_assoc).
+    assert (Hnon : ctl_of s1 pc = ctl_of s pc -> nsf t n (i, e) = [] ->
+                   exists tc, close_time (rev (map snd (t1 ++ (i, e) :: t2))) g = Some tc /\ tc <= ne_t x).
+    { intros Ec E. rewrite E in Hx. cbn [app] in Hx. rewrite Eapp.
+      eapply (IH (t1 ++ [(i, e)]) s1 s'); try eassumption; now rewrite Ec. }
+    destruct (e_k e) eqn:Hk;
+      try (apply Hnon; [unfold ctl_of; erewrite gstep_g_ctl; [reflexivity|exact Hs|intros; rewrite Hk; discriminate]
+                       |apply nsf_nonset; cbn [snd]; intros; rewrite Hk; discriminate]).
+    destruct (one_ctl_in _ _ _ _ _ _ _ _ Hone Hin Hk) as [[E Hne]|(c & Eby & E & ->)].
+    + apply Hnon; [|exact E]. eapply gstep_ctl_other; eassumption.
+    + rewrite E in Hx. cbn [app leaves ne_st] in Hx.
+      unfold gstep in Hs. rewrite Hk in Hs. cbn [step_set] in Hs.
+      destruct st.
+      * (* resume: closes g now *)
+        cbn [app] in Hx.
+        assert (Hcl : close_time (rev (map snd (t1 ++ (i, e) :: t2))) g = Some (e_t e)).
+        { cbn [step_set] in Hs. unfold step_setstate in Hs. cbv zeta in Hs. rewrite Est, Ech in Hs.
+          destruct (onat_eqb chan (Some g)) eqn:Eo; [|discriminate]. apply onat_eqb_eq in Eo. subst chan.
+          cbv beta iota in Hs.
+          destruct (nget (g_closed s) g) eqn:Ecl; [discriminate|].
+          destruct (GInv_run _ _ R1) as [[_ _ C3 _ _] _]. rewrite C3 in Ecl. apply close_time_closer in Ecl.
+          rewrite map_app, rev_app_distr. cbn [map snd rev]. rewrite <- app_assoc. apply close_time_app.
+          cbn [app close_time]. rewrite Ecl. unfold close_at, is_close. rewrite Hk, Nat.eqb_refl. reflexivity. }
+        exists (e_t e). split; [exact Hcl|].
+        destruct Hx as [<-|Hx]; [cbn [ne_t]; lia|].
+        apply leaves_In, ns_time in Hx as (ie & Hie & ->).
+        apply (mono_from_le _ _ Hmono). apply in_map. exact Hie.
+      * (* pause again: same generation *)
+        cbn [app] in Hx. cbn [step_set] in Hs. destruct (step_pause_paused _ _ _ _ _ _ Hs Est Ech) as [Est1 Ech1]. rewrite Eapp.
+        eapply (IH (t1 ++ [(i, e)]) s1 s'); eassumption.
+      * (* stop: closes g now *)
+        cbn [app] in Hx.
+        assert (Hcl : close_time (rev (map snd (t1 ++ (i, e) :: t2))) g = Some (e_t e)).
+        { cbn [step_set] in Hs. unfold step_setstate in Hs. cbv zeta in Hs. rewrite Est, Ech in Hs.
+          destruct (onat_eqb chan (Some g)) eqn:Eo; [|discriminate]. apply onat_eqb_eq in Eo. subst chan.
+          cbv beta iota in Hs.
+          destruct (nget (g_closed s) g) eqn:Ecl; [discriminate|].
+          destruct (GInv_run _ _ R1) as [[_ _ C3 _ _] _]. rewrite C3 in Ecl. apply close_time_closer in Ecl.
+          rewrite map_app, rev_app_distr. cbn [map snd rev]. rewrite <- app_assoc. apply close_time_app.
+          cbn [app close_time]. rewrite Ecl. unfold close_at, is_close. rewrite Hk, Nat.eqb_refl. reflexivity. }
+        exists (e_t e). split; [exact Hcl|].
+        destruct Hx as [<-|Hx]; [cbn [ne_t]; lia|].
+        apply leaves_In, ns_time in Hx as (ie & Hie & ->).
+        apply (mono_from_le _ _ Hmono). apply in_map. exact Hie.
 Qed.
 
 (** * Part D: the events of one request in the slim trace *)
@@ -751,7 +870,7 @@ Inductive story (r : nat) (tr : trace) : Prop :=
          mkEv t5 who (KRespond r status sb) :: rest ->
     quiet r pre -> quiet r q1 -> pathonly r mid -> (a = AProceed \/ quiet r mid) -> quiet r rest ->
     st <> GPaused -> state_at (rev pre) pc = st ->
-    a = match st with GStopped => AStopped | _ => AProceed end -> status_ok a status -> story r tr
+    a = match st with GStopped => AStopped | _ => AProceed end -> status_ok a status sb -> story r tr
 | StHeld h w a status : held_story tr r h w a status -> story r tr.
 
 Lemma req_story tr s r e :
@@ -841,8 +960,7 @@ Proof.
 Qed.
 
 Definition verdict_ok (t : itrace) (r : nat) (hl : bool) (c : N) : Prop :=
-  c = F_forward \/ c = F_refused \/ c = F_stale \/ c = F_shortcut \/ (c = F_health /\ hl = true) \/ c = F_late \/
-  (c = F_status /\ plain_answer t r = false).
+  c = F_forward \/ c = F_refused \/ c = F_stale \/ c = F_shortcut \/ (c = F_health /\ hl = true).
 
 Lemma gconc_respond r t who status sb : gconc r (mkEv t who (KRespond r status sb)) = true.
 Proof. unfold gconc, req_of. cbn. apply Nat.eqb_refl. Qed.
@@ -853,30 +971,8 @@ Proof. unfold gconc, req_of. cbn. apply Nat.eqb_refl. Qed.
 Lemma gconc_wake r t pc b : gconc r (mkEv t (AReq r) (KGateWake pc b)) = true.
 Proof. unfold gconc, req_of. cbn. apply Nat.eqb_refl. Qed.
 
-Lemma existsb_path_false (f : nat * event -> bool) PM :
-  (forall ie, C07corr.is_path (snd ie) = true -> f ie = false) ->
-  (forall ie, In ie PM -> C07corr.is_path (snd ie) = true) -> existsb f PM = false.
-Proof.
-  intros Hf HP. induction PM as [|x PM IH]; cbn [existsb]; [reflexivity|].
-  rewrite (Hf x (HP x (or_introl eq_refl))). apply IH. intros ie H. apply HP. now right.
-Qed.
-
-Lemma plain_false_gen t r pref PM i5 t5 who r' status sb :
-  req_evs t r = pref ++ PM ++ [(i5, mkEv t5 who (KRespond r' status sb))] ->
-  proceeded pref = false -> (forall ie, In ie PM -> C07corr.is_path (snd ie) = true) -> str_eqb sb [] = false ->
-  plain_answer t r = false.
-Proof.
-  intros Hreq Hp HPM Hsb. unfold plain_answer. rewrite Hreq. unfold proceeded in *.
-  rewrite !existsb_app, !forallb_app, Hp. cbn [existsb forallb snd e_k]. rewrite Hsb.
-  rewrite (existsb_path_false _ PM); [|intros [i e]; cbn [snd]; unfold C07corr.is_path; destruct (e_k e); try discriminate; reflexivity|exact HPM].
-  cbn [orb andb]. now rewrite !andb_false_r.
-Qed.
-
-Lemma status_flag_false a status sb :
-  status_flag a status sb = false -> status_ok a status -> a <> AProceed /\ str_eqb sb [] = false.
-Proof.
-  unfold status_flag, status_ok. destruct a; [discriminate| |]; intros H ->; cbn in H; split; try discriminate; exact H.
-Qed.
+Lemma status_flag_ok a status sb : status_ok a status sb -> status_flag a status sb = true.
+Proof. unfold status_flag, status_ok. destruct a; [reflexivity| |]; intros [-> ->]; reflexivity. Qed.
 
 Lemma leaves_mid t n L A i e M B x :
   L = (A ++ (i, e) :: M) ++ B -> nsf t n (i, e) = [] ->
@@ -887,11 +983,24 @@ Proof.
   rewrite leaves_app, leaves_app, !in_app_iff. left. right. exact Hx.
 Qed.
 
+Lemma leaves_split3 t n L A i e M B x :
+  L = (A ++ (i, e) :: M) ++ B -> nsf t n (i, e) = [] ->
+  In x (leaves (flat_map (nsf t n) L) GRunning) ->
+  In x (leaves (flat_map (nsf t n) A) GRunning) \/
+  In x (leaves (flat_map (nsf t n) M) (fin_st (flat_map (nsf t n) A) GRunning)) \/
+  exists cur, In x (leaves (flat_map (nsf t n) B) cur).
+Proof.
+  intros -> He Hx. rewrite flat_map_app, leaves_app in Hx. apply in_app_or in Hx as [Hx|Hx]; [|right; right; eauto].
+  rewrite flat_map_app in Hx. cbn [flat_map] in Hx. rewrite He in Hx. cbn [app] in Hx.
+  rewrite leaves_app in Hx. apply in_app_or in Hx as [Hx|Hx]; [left|right; left]; exact Hx.
+Qed.
+
 Section Link.
   Variables (tr' : trace) (s : gst) (r : nat) (hl : bool).
   Let T := index_from 0 tr'.
   Hypothesis Hrun : run gstep ginit tr' = Some s.
   Hypothesis Hpar : params_agree T = true.
+  Hypothesis Hmono : time_mono T = true.
   Variables (i0 : nat) (e0 : event) (l : itrace) (r0 sv : nat).
   Hypothesis Hreq : req_evs T r = (i0, e0) :: l.
   Hypothesis Hk0 : e_k e0 = KRouted r0 (Some sv).
@@ -918,7 +1027,7 @@ Section Link.
           mkEv t5 who (KRespond r status sb) :: rest ->
     quiet r pre -> quiet r q1 -> pathonly r mid -> (a = AProceed \/ quiet r mid) -> quiet r rest ->
     st <> GPaused -> state_at (rev pre) pc = st ->
-    a = match st with GStopped => AStopped | _ => AProceed end -> status_ok a status ->
+    a = match st with GStopped => AStopped | _ => AProceed end -> status_ok a status sb ->
     forall c, In c (check_req T r hl) -> verdict_ok T r hl c.
   Proof.
     intros Htr Q1 Q2 P4 Hq Q5 Hne Hst Ha Hs c Hc.
@@ -960,17 +1069,12 @@ Section Link.
     apply in_app_or in Hc as [Hc|Hc].
     { apply check_path_codes in Hc. unfold verdict_ok. tauto. }
     apply in_app_or in Hc as [Hc|Hc].
-    { apply in_flag in Hc as [Hb ->]. unfold verdict_ok. right. right. right. right. left. split; [reflexivity|].
+    { apply in_flag in Hc as [Hb ->]. unfold verdict_ok. right. right. right. right. split; [reflexivity|].
       destruct hl; [reflexivity|discriminate]. }
     assert (Hc' : In c (check_tail a (PM ++ [(i5, mkEv t5 who (KRespond r status sb))]))).
     { destruct st; [|contradiction|]; rewrite Eaa in Hc; exact Hc. }
     clear Hc. rewrite (check_tail_eval _ _ _ _ _ _ _ _ HPM HPM0) in Hc'.
-    apply in_flag in Hc' as [Hb ->]. unfold verdict_ok. do 6 right. split; [reflexivity|].
-    destruct (status_flag_false _ _ _ Hb Hs) as [Hnp Hsb].
-    eapply plain_false_gen with (pref := [(i0, e0); (i1, mkEv t1 (AReq r) (KGateRead pc st ch));
-                                          (i3, mkEv t3 (AReq r) (KGateResult r svc a))]) (PM := PM);
-      [rewrite Hreq, El; reflexivity| |exact HPM|exact Hsb].
-    unfold proceeded. cbn [existsb snd e_k]. rewrite Hk0. destruct a; [contradiction|reflexivity|reflexivity].
+    apply in_flag in Hc' as [Hb _]. exfalso. rewrite (status_flag_ok _ _ _ Hs) in Hb. discriminate.
   Qed.
 
   Lemma link_held h w a status :
@@ -978,7 +1082,7 @@ Section Link.
     forall c, In c (check_req T r hl) -> verdict_ok T r hl c.
   Proof.
     intros (pre & held & aw & mid & rest & t3 & svc & t5 & who & sb & Htr & Q1 & Q2 & Q3 & P4 & Hq & Q5 &
-            (S1 & S2 & S3) & (W1 & W2 & W3) & Ha & Hs) c Hc.
+            (S1 & S2 & S3) & (W1 & W2 & W3 & W4) & Ha & Hs) c Hc.
     unfold ev_read, ev_wake in *.
     set (pc := h_pc h) in *. set (g := h_gen h) in *.
     set (READ := mkEv (h_tread h) (AReq r) (KGateRead pc GPaused (Some g))) in *.
@@ -1020,7 +1124,7 @@ Section Link.
     (* the runs of the gate view up to the read and up to the wake *)
     pose proof Hrun as Hrun2. rewrite Htr2 in Hrun2. apply run_split in Hrun2 as (s2 & s2' & R2 & _ & _).
     pose proof R2 as R2'. apply run_split in R2' as (s1 & s1' & R1 & Hread & Rheld).
-    destruct (GInv_run _ _ R1) as [[_ C1 _ _] _]. destruct (GInv_run _ _ R2) as [[_ _ C2 _] _].
+    destruct (GInv_run _ _ R1) as [[_ C1 C1c _ _] _]. destruct (GInv_run _ _ R2) as [[_ _ C2 _ _] _].
     (* name = controller at both points *)
     destruct (name_follows_ctl _ _ _ Hctl Hpar A1 _ s1 ET1) as [F1 F1']; [unfold A1; now rewrite map_snd_index_from|].
     unfold A1 in F1, F1'. rewrite map_snd_index_from in F1, F1'. fold A1 in F1, F1'. rewrite S1 in F1. rewrite <- S3 in F1'.
@@ -1051,6 +1155,36 @@ Section Link.
       - rewrite Hc1, C1. exact S2.
       - exact HM.
       - pose proof (gi_live _ (GenInv_run _ _ R2) pc g P1 P2) as Hopen. rewrite C2 in Hopen. now apply W1. }
+    (* a timer wake: every resume / stop of the name between the read and the wake is at or after the wake's time *)
+    assert (Hlate : w_chan w = false ->
+              forallb (fun x => negb (ne_t x <? w_t w))
+                (filter (fun x => Nat.ltb i1 (ne_pos x) && Nat.ltb (ne_pos x) i2) (leaves (name_sets T n) GRunning)) = true).
+    { intros Ew. apply forallb_forall. intros x Hx. apply filter_In in Hx as [Hx Hpos].
+      apply andb_true_iff in Hpos as [Hp1 Hp2]. apply Nat.ltb_lt in Hp1, Hp2.
+      rewrite name_sets_nsf in Hx.
+      apply (leaves_split3 T n T A1 i1 READ M _ x ET2) in Hx; [|apply nsf_nonset; cbn; intros; discriminate].
+      destruct Hx as [Hx|[Hx|(cur & Hx)]].
+      - exfalso. apply leaves_In, ns_pos in Hx as (ie & Hie & E). apply B1 in Hie. lia.
+      - rewrite F1 in Hx.
+        assert (Hc1 : ctl_of s1' pc = ctl_of s1 pc).
+        { unfold ctl_of. erewrite gstep_g_ctl; [reflexivity|exact Hread|cbn; intros; discriminate]. }
+        assert (Hm : exists t1, mono_from t1 (map snd M) = true).
+        { pose proof Hmono as Hm. unfold time_mono, T in Hm. rewrite map_snd_index_from, Htr2 in Hm.
+          apply mono_from_app_l in Hm.
+          replace (pre ++ READ :: held) with ((pre ++ [READ]) ++ held) in Hm by (now rewrite <- app_assoc).
+          apply mono_from_app in Hm as (t1 & Hm). exists t1. unfold M. now rewrite map_snd_index_from. }
+        destruct Hm as (t1 & Hm).
+        edestruct (closed_before T n pc g Hctl M (A1 ++ [(i1, READ)]) s1' s2) as (tc & Hct & Hle);
+          [ | | | | |exact Hm|exact Hx|].
+        + intros y Hy. rewrite ET2, !in_app_iff. left. right. now right.
+        + rewrite map_app, run_app. unfold A1. rewrite map_snd_index_from, R1. cbn [map snd run]. now rewrite Hread.
+        + unfold M. now rewrite map_snd_index_from.
+        + rewrite Hc1, C1. exact S1.
+        + rewrite Hc1, C1. exact S2.
+        + assert (Emap : map snd ((A1 ++ [(i1, READ)]) ++ M) = pre ++ READ :: held).
+          { rewrite <- app_assoc. cbn [app]. rewrite <- EA2. apply map_snd_index_from. }
+          rewrite Emap in Hct. specialize (W4 Ew tc Hct). apply negb_true_iff, N.ltb_ge. lia.
+      - exfalso. apply leaves_In, ns_pos in Hx as (ie & Hie & E). apply B2' in Hie. lia. }
     unfold check_req in Hc. rewrite Hreq in Hc. cbn beta iota in Hc. rewrite Hk0 in Hc. rewrite El in Hc.
     cbn beta iota zeta in Hc. unfold READ at 2 3 in Hc. cbn [e_k] in Hc.
     fold n in Hc. unfold WAKE, RESULT in Hc. cbn [e_k e_t] in Hc. rewrite SB1, SF1, SB2 in Hc.
@@ -1058,7 +1192,7 @@ Section Link.
     apply in_app_or in Hc as [Hc|Hc].
     { apply check_path_codes in Hc. unfold verdict_ok. tauto. }
     apply in_app_or in Hc as [Hc|Hc].
-    { apply in_flag in Hc as [Hb ->]. unfold verdict_ok. right. right. right. right. left. split; [reflexivity|].
+    { apply in_flag in Hc as [Hb ->]. unfold verdict_ok. right. right. right. right. split; [reflexivity|].
       destruct hl; [reflexivity|discriminate]. }
     apply in_app_or in Hc as [Hc|Hc].
     { destruct (w_chan w) eqn:Ew.
@@ -1067,15 +1201,11 @@ Section Link.
           [now apply (Hlv eq_refl)|discriminate].
       - apply in_app_or in Hc as [Hc|Hc].
         + apply in_flag in Hc as [Hb _]. exfalso. rewrite (W2 eq_refl), N.eqb_refl in Hb. discriminate.
-        + apply in_flag in Hc as [_ ->]. unfold verdict_ok. tauto. }
+        + apply in_flag in Hc as [Hb _]. exfalso. rewrite (Hlate eq_refl) in Hb. discriminate. }
     apply in_app_or in Hc as [Hc|Hc].
     { apply in_flag in Hc as [Hb _]. exfalso. unfold action_of in Ha. rewrite <- Ha in Hb. destruct a; discriminate. }
     unfold RESP in Hc. rewrite (check_tail_eval _ _ _ _ _ _ _ _ HPM HPM0) in Hc.
-    apply in_flag in Hc as [Hb ->]. unfold verdict_ok. do 6 right. split; [reflexivity|].
-    destruct (status_flag_false _ _ _ Hb Hs) as [Hnp Hsb].
-    eapply plain_false_gen with (pref := [(i0, e0); (i1, READ); (i2, WAKE); (i3, RESULT)]) (PM := PM);
-      [rewrite Hreq, El; reflexivity| |exact HPM|exact Hsb].
-    unfold proceeded. cbn [existsb snd e_k READ WAKE RESULT]. rewrite Hk0. destruct a; [contradiction|reflexivity|reflexivity].
+    apply in_flag in Hc as [Hb _]. exfalso. rewrite (status_flag_ok _ _ _ Hs) in Hb. discriminate.
   Qed.
 
   Lemma link_story : story r tr' -> forall c, In c (check_req T r hl) -> verdict_ok T r hl c.
@@ -1098,7 +1228,8 @@ Proof.
   unfold gate_accepts, c07_side. intros Hacc Hside c Hc.
   rewrite <- run_filter_relevant in Hacc.
   destruct (run gstep ginit (filter relevant tr)) as [s|] eqn:Hrun; [|discriminate].
-  apply andb_true_iff in Hside as [Hpar Hside]. unfold slim in *. set (tr' := filter relevant tr) in *.
+  apply andb_true_iff in Hside as [Hpar Hside]. apply andb_true_iff in Hpar as [Hpar Hmono].
+  unfold slim in *. set (tr' := filter relevant tr) in *.
   unfold side_req in Hside.
   destruct (req_evs (index_from 0 tr') r) as [|[i0 e0] l] eqn:Hreq.
   { unfold check_req in Hc. rewrite Hreq in Hc. destruct Hc. }
@@ -1139,36 +1270,38 @@ Qed.
 Theorem link_verdict tr reqs r c :
   gate_accepts tr = true -> c07_side tr r = true -> In (r, c) (c07_check tr reqs) ->
   c = F_cmd \/ c = F_forward \/ c = F_refused \/ c = F_stale \/ c = F_shortcut \/
-  (c = F_health /\ In (r, true) reqs) \/ c = F_late \/ (c = F_status /\ c07_plain tr r = false).
+  (c = F_health /\ In (r, true) reqs).
 Proof.
   intros Hacc Hside Hin. apply c07_check_in in Hin as [->|(hl & Hr & Hc)]; [now left|].
   pose proof (link_req tr r hl Hacc Hside c Hc) as Hv. unfold verdict_ok in Hv.
-  destruct Hv as [->|[->|[->|[->|[[-> ->]|[->|[-> Hp]]]]]]]; auto 10.
+  destruct Hv as [->|[->|[->|[->|[-> ->]]]]]; auto 10.
 Qed.
 
 Theorem link_gate_codes tr reqs r c :
   gate_accepts tr = true -> c07_side tr r = true ->
-  In c [F_once; F_read; F_held; F_chanwake; F_timer; F_result] -> ~ In (r, c) (c07_check tr reqs).
+  In c [F_once; F_read; F_held; F_chanwake; F_timer; F_late; F_result; F_status] -> ~ In (r, c) (c07_check tr reqs).
 Proof.
   intros Hacc Hside Hc Hin. pose proof (link_verdict _ _ _ _ Hacc Hside Hin) as Hv.
-  unfold F_cmd, F_forward, F_refused, F_stale, F_shortcut, F_health, F_late, F_status in Hv.
-  unfold F_once, F_read, F_held, F_chanwake, F_timer, F_result in Hc. cbn [In] in Hc.
+  unfold F_cmd, F_forward, F_refused, F_stale, F_shortcut, F_health in Hv.
+  unfold F_once, F_read, F_held, F_chanwake, F_timer, F_late, F_result, F_status in Hc. cbn [In] in Hc.
   intuition (subst; discriminate).
 Qed.
 
-Theorem link_status_partial tr reqs r :
-  gate_accepts tr = true -> c07_side tr r = true -> c07_plain tr r = true -> ~ In (r, F_status) (c07_check tr reqs).
-Proof.
-  intros Hacc Hside Hp Hin. pose proof (link_verdict _ _ _ _ Hacc Hside Hin) as Hv.
-  unfold F_cmd, F_forward, F_refused, F_stale, F_shortcut, F_health, F_late, F_status in Hv.
-  intuition (try discriminate; congruence).
-Qed.
+(** "timed out although a resume / stop had come earlier" is never reported *)
+Theorem link_late tr reqs r :
+  gate_accepts tr = true -> c07_side tr r = true -> ~ In (r, F_late) (c07_check tr reqs).
+Proof. intros Hacc Hside. apply link_gate_codes; [exact Hacc|exact Hside|]. cbn [In]. tauto. Qed.
+
+(** "status inconsistent with the gate result" is never reported *)
+Theorem link_status tr reqs r :
+  gate_accepts tr = true -> c07_side tr r = true -> ~ In (r, F_status) (c07_check tr reqs).
+Proof. intros Hacc Hside. apply link_gate_codes; [exact Hacc|exact Hside|]. cbn [In]. tauto. Qed.
 
 Theorem link_health tr reqs r :
   gate_accepts tr = true -> c07_side tr r = true -> ~ In (r, true) reqs -> ~ In (r, F_health) (c07_check tr reqs).
 Proof.
   intros Hacc Hside Hp Hin. pose proof (link_verdict _ _ _ _ Hacc Hside Hin) as Hv.
-  unfold F_cmd, F_forward, F_refused, F_stale, F_shortcut, F_health, F_late, F_status in Hv.
+  unfold F_cmd, F_forward, F_refused, F_stale, F_shortcut, F_health in Hv.
   intuition (try discriminate).
 Qed.
 
@@ -1199,7 +1332,8 @@ Definition w_parked : trace := w_deploy ++
   mkEv 0 (AReq 1) (KGateRead 0 GPaused (Some 0%nat))].
 
 (** F_late: the resume closes the generation at 1 s, yet the request is woken by its timer at 2 s.
-    The gate view accepts: [step_wake] by timer only checks the deadline. *)
+    The gate view now REJECTS this trace: [step_wake] by timer demands that the generation was not closed
+    at a strictly earlier time. *)
 Definition wit_late : trace := w_parked ++
  [mkEv 1000000000 (ACmd 3) (KIssue 3 CkResume web);
   mkEv 1000000000 (ACmd 3) (KParams 3 0 0 0);
@@ -1209,11 +1343,43 @@ Definition wit_late : trace := w_parked ++
   mkEv 2000000000 (AReq 1) (KGateResult 1 0 ATimedOut);
   mkEv 2000000000 (AReq 1) (KRespond 1 504 [])].
 
-(** F_status: the 504 after "timed out" names a target.  [step_respond] ignores the field. *)
+(** F_status: the 504 after "timed out" names a target.  The gate view now REJECTS this trace:
+    [step_respond] demands an empty served-by after "timed out" / "stopped". *)
 Definition wit_by : trace := w_parked ++
  [mkEv 2000000000 (AReq 1) (KGateWake 0 false);
   mkEv 2000000000 (AReq 1) (KGateResult 1 0 ATimedOut);
   mkEv 2000000000 (AReq 1) (KRespond 1 504 [x74;x61])].
+
+(** the tie stays accepted: the resume closes the generation at 2 s, the request is woken by its timer
+    at the same instant, after the close (the select had both cases ready) *)
+Definition wit_tie : trace := w_parked ++
+ [mkEv 2000000000 (ACmd 3) (KIssue 3 CkResume web);
+  mkEv 2000000000 (ACmd 3) (KParams 3 0 0 0);
+  mkEv 2000000000 (ACmd 3) (KGateSet 0 GRunning (Some 0%nat));
+  mkEv 2000000000 (ACmd 3) (KReturn 3 CROk);
+  mkEv 2000000000 (AReq 1) (KGateWake 0 false);
+  mkEv 2000000000 (AReq 1) (KGateResult 1 0 ATimedOut);
+  mkEv 2000000000 (AReq 1) (KRespond 1 504 [])].
+
+(** time running backwards (not a recorded trace: [time_mono] is false): resume at 3 s, pause again, a second
+    resume stamped 1 s, then the timer of request 1 at 2 s.  The gate view accepts (the generation of the
+    request was closed at 3 s), the monitor reports F_late for the second resume. *)
+Definition wit_backwards : trace := w_parked ++
+ [mkEv 3000000000 (ACmd 3) (KIssue 3 CkResume web);
+  mkEv 3000000000 (ACmd 3) (KParams 3 0 0 0);
+  mkEv 3000000000 (ACmd 3) (KGateSet 0 GRunning (Some 0%nat));
+  mkEv 3000000000 (ACmd 3) (KReturn 3 CROk);
+  mkEv 3000000000 (ACmd 4) (KIssue 4 CkPause web);
+  mkEv 3000000000 (ACmd 4) (KParams 4 0 3000000000 2000000000);
+  mkEv 3000000000 (ACmd 4) (KGateSet 0 GPaused (Some 1%nat));
+  mkEv 3000000000 (ACmd 4) (KReturn 4 CROk);
+  mkEv 1000000000 (ACmd 5) (KIssue 5 CkResume web);
+  mkEv 1000000000 (ACmd 5) (KParams 5 0 0 0);
+  mkEv 1000000000 (ACmd 5) (KGateSet 0 GRunning (Some 1%nat));
+  mkEv 1000000000 (ACmd 5) (KReturn 5 CROk);
+  mkEv 2000000000 (AReq 1) (KGateWake 0 false);
+  mkEv 2000000000 (AReq 1) (KGateResult 1 0 ATimedOut);
+  mkEv 2000000000 (AReq 1) (KRespond 1 504 [])].
 
 (** without the side condition: a routed request to which nothing more happens (F_once) *)
 Definition wit_lost : trace := w_deploy ++ [mkEv 0 (AReq 1) (KRouted 1 (Some 0%nat))].
@@ -1279,26 +1445,35 @@ Definition wit_ref : trace := w_passed ++
 Definition no_pattern (tr : trace) (r : nat) : bool :=
   negb (known_d3 (slim tr) r) && negb (known_d2 (slim tr) r) && negb (known_ov (slim tr) r).
 
-Theorem link_late_refuted :
-  exists tr reqs r, accepted tr /\ c07_side tr r = true /\ c07_plain tr r = true /\ no_pattern tr r = true /\
-                    c07_check tr reqs = [(r, F_late)].
-Proof. exists wit_late, [(1%nat, false)], 1%nat. repeat split; vm_compute; reflexivity. Qed.
+(** the former witnesses of the two refuted links: the monitor still reports F_late / F_status on them, the
+    side condition holds, the path view accepts them — and the tightened gate view rejects them, at the timer
+    wake and at the answer *)
+Lemma wit_late_rejected :
+  gate_accepts wit_late = false /\ first_reject gstep ginit wit_late 0 = Some 19%nat /\ path_accepts wit_late = true /\
+  c07_side wit_late 1 = true /\ c07_plain wit_late 1 = true /\ c07_check wit_late [(1%nat, false)] = [(1%nat, F_late)].
+Proof. repeat split; vm_compute; reflexivity. Qed.
 
-Theorem link_status_refuted :
-  exists tr reqs r, accepted tr /\ c07_side tr r = true /\ no_pattern tr r = true /\
-                    c07_plain tr r = false /\ c07_check tr reqs = [(r, F_status)].
-Proof. exists wit_by, [(1%nat, false)], 1%nat. repeat split; vm_compute; reflexivity. Qed.
+Lemma wit_by_rejected :
+  gate_accepts wit_by = false /\ first_reject gstep ginit wit_by 0 = Some 17%nat /\ path_accepts wit_by = true /\
+  c07_side wit_by 1 = true /\ c07_plain wit_by 1 = false /\ c07_check wit_by [(1%nat, false)] = [(1%nat, F_status)].
+Proof. repeat split; vm_compute; reflexivity. Qed.
+
+Lemma wit_tie_accepted :
+  accepted wit_tie /\ c07_side wit_tie 1 = true /\ c07_check wit_tie [(1%nat, false)] = [].
+Proof. repeat split; vm_compute; reflexivity. Qed.
 
 Theorem link_needs_side :
   (exists tr reqs r, accepted tr /\ c07_check tr reqs = [(r, F_once)]) /\
   (exists tr reqs r, accepted tr /\ c07_check tr reqs = [(r, F_held)]) /\
   (exists tr reqs r, accepted tr /\ c07_check tr reqs = [(r, F_timer)]) /\
-  (exists tr reqs r, accepted tr /\ In (r, F_chanwake) (c07_check tr reqs)).
+  (exists tr reqs r, accepted tr /\ In (r, F_chanwake) (c07_check tr reqs)) /\
+  (exists tr reqs r, accepted tr /\ time_mono (slim tr) = false /\ c07_check tr reqs = [(r, F_late)]).
 Proof.
   split; [exists wit_lost, [(1%nat, false)], 1%nat; repeat split; vm_compute; reflexivity|].
   split; [exists wit_stray, [(1%nat, false)], 1%nat; repeat split; vm_compute; reflexivity|].
   split; [exists wit_params, [(1%nat, false)], 1%nat; repeat split; vm_compute; reflexivity|].
-  exists wit_name, [(1%nat, false)], 1%nat. repeat split; vm_compute; try reflexivity. tauto.
+  split; [exists wit_name, [(1%nat, false)], 1%nat; repeat split; vm_compute; try reflexivity; tauto|].
+  exists wit_backwards, [(1%nat, false)], 1%nat. repeat split; vm_compute; reflexivity.
 Qed.
 
 Theorem link_forward_refused_refuted :
